@@ -283,3 +283,134 @@ Proof.
   - rewrite upd_same. cbn [fd_with_pidx pidx]. split; [split; intros H; exfalso; auto|].
     intros p _ H. exfalso; auto.
 Qed.
+
+Lemma poll_remove_swap : forall s k pl kl, pidx (fdt s k) <> Z.of_nat (length (pfds s)) - 1 ->
+  nth_z (pfds s) (Z.of_nat (length (pfds s)) - 1) = Some pl ->
+  nth_z (pkeys s) (Z.of_nat (length (pfds s)) - 1) = Some kl -> kl <> k ->
+  let m := Z.to_nat (Z.of_nat (length (pfds s)) - 1) in
+  let i := Z.to_nat (pidx (fdt s k)) in
+  poll_remove s k =
+  set_poll (set_fdt s (upd (upd (fdt s) kl (fd_with_pidx (fdt s kl) (pidx (fdt s k)))) k (fd_with_pidx (fdt s k) (-1))))
+           (firstn m (set_nth (pfds s) i pl)) (firstn m (set_nth (pkeys s) i kl)).
+Proof.
+  intros s k pl kl H A B N m i. unfold poll_remove, getfd. cbv zeta.
+  replace (pidx (fdt s k) =? Z.of_nat (length (pfds s)) - 1) with false by (symmetry; apply Z.eqb_neq; assumption).
+  cbn [negb]. rewrite A, B. unfold putfd. sp. rewrite (upd_other _ _ kl _ k) by congruence. reflexivity.
+Qed.
+
+Lemma poll_notify_B2 : forall x s k, FdInv x s -> is_epoll s = false -> live s x k ->
+  pidx (fdt s k) <> Z.of_nat (length (pfds s)) - 1 -> wanted (fdt s k) = 0 -> pidx (fdt s k) <> -1 ->
+  PollPost x k s (poll_remove s k).
+Proof.
+  intros x s k I E L PL W P.
+  destruct (pidx_pos _ _ _ I E L P) as (P0 & PK & Lt).
+  assert (LEN : length (pfds s) = length (pkeys s)) by apply (fv_plen _ _ I).
+  set (i := Z.to_nat (pidx (fdt s k))) in *.
+  set (m := Z.to_nat (Z.of_nat (length (pfds s)) - 1)).
+  assert (Ml : S m = length (pkeys s)) by (subst m; lia).
+  assert (Lim : (i < m)%nat) by (subst i m; lia).
+  destruct (nth_error_ex _ (pkeys s) m ltac:(lia)) as (kl & KL).
+  destruct (fv_pkey _ _ I m kl KL) as (LL & PIL & evl & PFL).
+  assert (NKL : kl <> k).
+  { intro; subst kl. assert (m = i) by (eapply pkeys_pos_inj; eassumption). lia. }
+  assert (ZM : Z.of_nat (length (pfds s)) - 1 = Z.of_nat m) by (subst m; lia).
+  rewrite (poll_remove_swap s k (fdnum (fdt s kl), evl) kl PL); try assumption;
+    [|rewrite nth_z_nat by lia; exact PFL|rewrite nth_z_nat by lia; exact KL].
+  cbv zeta. fold i m. set (pl := (fdnum (fdt s kl), evl)) in *.
+  set (g := upd (upd (fdt s) kl (fd_with_pidx (fdt s kl) (pidx (fdt s k)))) k (fd_with_pidx (fdt s k) (-1))).
+  assert (Gk : g k = fd_with_pidx (fdt s k) (-1)) by (subst g; apply upd_same).
+  assert (Gl : g kl = fd_with_pidx (fdt s kl) (pidx (fdt s k))).
+  { subst g. rewrite upd_other by assumption. apply upd_same. }
+  assert (Go : forall k0, k0 <> k -> k0 <> kl -> g k0 = fdt s k0).
+  { intros k0 A B. subst g. rewrite !upd_other by assumption. reflexivity. }
+  assert (FD : forall k0, exists j, g k0 = fd_with_pidx (fdt s k0) j).
+  { intros k0. destruct (Z.eq_dec k0 k) as [->|N1]; [eexists; exact Gk|].
+    destruct (Z.eq_dec k0 kl) as [->|N2]; [eexists; exact Gl|].
+    exists (pidx (fdt s k0)). rewrite Go by assumption. symmetry. apply fd_with_pidx_id. }
+  assert (RS : forall a b c, restsame s (set_poll (set_fdt s c) a b)) by (intros; constructor; reflexivity).
+  assert (NK : forall j, nth_error (firstn m (set_nth (pkeys s) i kl)) j =
+               if (j <? m)%nat then (if (j =? i)%nat then Some kl else nth_error (pkeys s) j) else None).
+  { intros j. rewrite nth_error_firstn, nth_error_set_nth. apply Nat.ltb_lt in Lt. rewrite Lt, andb_true_r. reflexivity. }
+  assert (NP : forall j, nth_error (firstn m (set_nth (pfds s) i pl)) j =
+               if (j <? m)%nat then (if (j =? i)%nat then Some pl else nth_error (pfds s) j) else None).
+  { intros j. rewrite nth_error_firstn, nth_error_set_nth. rewrite LEN. apply Nat.ltb_lt in Lt. rewrite Lt, andb_true_r. reflexivity. }
+  assert (OTH : forall k0, live s x k0 -> k0 <> k -> k0 <> kl -> pidx (fdt s k0) <> -1 ->
+                (Z.to_nat (pidx (fdt s k0)) < m)%nat /\ Z.to_nat (pidx (fdt s k0)) <> i).
+  { intros k0 L0 N1 N2 Q. destruct (pidx_pos _ _ _ I E L0 Q) as (_ & PK0 & Lt0).
+    assert (Z.to_nat (pidx (fdt s k0)) <> m) by (intro Q'; rewrite Q' in PK0; congruence).
+    assert (Z.to_nat (pidx (fdt s k0)) <> i) by (intro Q'; rewrite Q' in PK0; congruence). lia. }
+  unfold PollPost. sp. split; [|split; [|split; [constructor; reflexivity|split; [exact FD|]]]].
+  - eapply FdInv_rebuild_poll with (s := s); try eassumption; try reflexivity; sp.
+    + intros k0. destruct (FD k0) as (j & ->). repeat split.
+    + rewrite !firstn_length, !set_nth_length. lia.
+    + intros j k0 H. rewrite NK in H. rewrite NP.
+      destruct (Nat.ltb_spec j m) as [Lj|Gj]; [|discriminate].
+      destruct (Nat.eqb_spec j i) as [->|Nj].
+      * injection H as <-. split; [assumption|]. rewrite Gl. cbn [fd_with_pidx pidx]. split; [subst i; lia|exists evl; reflexivity].
+      * destruct (fv_pkey _ _ I j k0 H) as (A&B&C). split; [assumption|].
+        assert (k0 <> k) by (intro; subst k0; apply Nj; eapply pkeys_pos_inj; eassumption).
+        assert (k0 <> kl) by (intro; subst k0; assert (j = m) by (eapply pkeys_pos_inj; eassumption); lia).
+        rewrite Go by assumption. tauto.
+    + intros k0 L0. destruct (Z.eq_dec k0 k) as [->|N1]; [left; rewrite Gk; reflexivity|].
+      destruct (Z.eq_dec k0 kl) as [->|N2].
+      * right. rewrite Gl. cbn [fd_with_pidx pidx]. split; [assumption|]. fold i. rewrite NK.
+        apply Nat.ltb_lt in Lim. rewrite Lim, Nat.eqb_refl. reflexivity.
+      * rewrite Go by assumption. destruct (fv_pidx _ _ I E k0 L0) as [A|[A B]]; [left; assumption|right].
+        split; [assumption|]. assert (Q : pidx (fdt s k0) <> -1) by lia.
+        destruct (OTH k0 L0 N1 N2 Q) as [Lt0 Ni]. rewrite NK. apply Nat.ltb_lt in Lt0. rewrite Lt0.
+        apply Nat.eqb_neq in Ni. rewrite Ni. assumption.
+  - apply FdStep_poll; sp; [reflexivity|exact FD|apply RS|].
+    intros k0 N S. destruct (Z.eq_dec k0 kl) as [->|N2].
+    + apply (sync_poll_transfer s _ kl (pidx (fdt s k))); sp; try assumption; [apply RS|].
+      intros RG. split; [split; intros _; lia|]. intros _. fold i. rewrite NP.
+      apply Nat.ltb_lt in Lim. rewrite Lim, Nat.eqb_refl. rewrite PIL, Nat2Z.id. symmetry. exact PFL.
+    + apply (sync_poll_transfer s _ k0 (pidx (fdt s k0))); sp; try assumption; [apply RS| |].
+      * rewrite Go by assumption. symmetry. apply fd_with_pidx_id.
+      * intros RG. split; [tauto|]. intros Q.
+        assert (L0 : live s x k0) by (split; [apply (fv_range _ _ I); assumption|left; assumption]).
+        destruct (OTH k0 L0 N N2 Q) as [Lt0 Ni]. rewrite NP. apply Nat.ltb_lt in Lt0. rewrite Lt0.
+        apply Nat.eqb_neq in Ni. rewrite Ni. reflexivity.
+  - rewrite Gk. cbn [fd_with_pidx pidx]. split; [split; intros H; exfalso; auto|].
+    intros p _ H. exfalso; auto.
+Qed.
+
+Lemma poll_notify_unfold : forall s k,
+  poll_notify_fd s k =
+  let f := getfd s k in
+  let n := Z.of_nat (length (pfds s)) in
+  if (pidx f =? -1) && negb (wanted f =? 0) then
+    if 65536 <=? n then halt s TCrash else
+    let s1 := putfd s k (fd_with_pidx f n) in
+    R (set_poll s1 (pfds s1 ++ [(fdnum f, poll_mask (wanted f))]) (pkeys s1 ++ [k]))
+  else if negb (pidx f =? -1) && (wanted f =? 0) then
+    if (pidx f <? 0) || (n - 1 <? pidx f) then halt s TCrash else R (poll_remove s k)
+  else if negb (pidx f =? -1) then
+    match nth_z (pfds s) (pidx f) with
+    | Some p => R (set_poll s (set_nth (pfds s) (Z.to_nat (pidx f)) (fst p, poll_mask (wanted f))) (pkeys s))
+    | None => halt s TCrash
+    end
+  else R s.
+Proof. reflexivity. Qed.
+
+Lemma poll_notify_ok : forall x s k, FdInv x s -> is_epoll s = false -> live s x k ->
+  okr (PollPost x k s) (poll_notify_fd s k).
+Proof.
+  intros x s k I E L. rewrite poll_notify_unfold. unfold getfd. cbv zeta.
+  assert (LEN : length (pfds s) = length (pkeys s)) by apply (fv_plen _ _ I).
+  pose proof (pkeys_len _ _ I) as PL.
+  destruct (Z.eqb_spec (pidx (fdt s k)) (-1)) as [P|P]; destruct (Z.eqb_spec (wanted (fdt s k)) 0) as [W|W];
+    cbn [andb negb].
+  - cbn [okr]. apply poll_notify_D; assumption.
+  - destruct (Z.leb_spec 65536 (Z.of_nat (length (pfds s)))) as [H|H]; [lia|].
+    cbn [okr]. apply poll_notify_A; assumption.
+  - destruct (pidx_pos _ _ _ I E L P) as (P0 & PK & Lt).
+    destruct (Z.ltb_spec (pidx (fdt s k)) 0) as [H|H]; [lia|].
+    destruct (Z.ltb_spec (Z.of_nat (length (pfds s)) - 1) (pidx (fdt s k))) as [H'|H']; [lia|].
+    cbn [orb okr]. destruct (Z.eq_dec (pidx (fdt s k)) (Z.of_nat (length (pfds s)) - 1)).
+    + apply poll_notify_B1; assumption.
+    + apply poll_notify_B2; assumption.
+  - destruct (pidx_pos _ _ _ I E L P) as (P0 & PK & Lt).
+    destruct (fv_pkey _ _ I _ _ PK) as (_ & _ & ev & PF).
+    rewrite nth_z_nat by assumption. rewrite PF. cbn [okr]. apply (poll_notify_C x s k (fdnum (fdt s k), ev)); try assumption.
+    rewrite nth_z_nat by assumption. assumption.
+Qed.
